@@ -228,11 +228,11 @@ def tamper(res, sidlen, ridlen, idc, alg, ssn, full):
     cl = make(sid, rid, idc, alg, ssn)
     sv = make(rid, sid, idc, alg, 0)
     m = Message(code=codes.POST, uri_path=["x", "y"], payload=b"pl")
-    outer, _ = cl.protect(m)
-    w, data = wire(outer)
     sv.recipient_replay_window.initialize_empty()
     try:
-        inner, _ = sv.unprotect(w)
+        outer, rid_cl = cl.protect(m)
+        w, data = wire(outer)
+        inner, rid_sv = sv.unprotect(w)
     except Exception as e:
         res.violate(Violation("roundtrip-raises", "protect/unprotect succeed", core.exc_desc(e), core.site_of(e),
                               {"family": "tamper-base", "sid": sid, "rid": rid, "idc": idc, "alg": alg, "ssn": ssn}, key="base:" + type(e).__name__))
@@ -279,6 +279,11 @@ def tamper(res, sidlen, ridlen, idc, alg, ssn, full):
     edits.append(("kctx-other", opt_from(kctx=b"other")))
     edits.append(("kctx-dropped", opt_from(kctx=None)))
     edits.append(("kctx-empty", opt_from(kctx=b"")))
+    # Partial IV lengths beyond 5 (6 and 7 are reserved, RFC 8613 section 6.1), everything else in place
+    for n in (6, 7):
+        raw = bytes([n | 0x08 | (0x10 if idc is not None else 0)]) + b"\0" * (n - len(piv)) + piv \
+            + ((bytes([len(idc)]) + idc) if idc is not None else b"") + sid
+        edits.append(("piv-len%d" % n, raw))
     for name, ov in edits:
         if ov == optv:
             continue
@@ -298,7 +303,83 @@ def tamper(res, sidlen, ridlen, idc, alg, ssn, full):
         except Exception as e:
             res.violate(Violation("tamper-raises-other", "a protection error", core.exc_desc(e), core.site_of(e), dict(base, foreign=name),
                                   key="%s@%s" % (type(e).__name__, core.site_of(e))))
+    tamper_response(res, cl, sv, rid_cl, rid_sv, base, full)
     res.traces += 1
+
+
+def tamper_response(res, cl, sv, rid_cl, rid_sv, base, full):
+    """The same for responses (first one re-using the request's nonce, second one with the server's own Partial IV): nothing but
+    the genuine bytes verifies against the request's identifiers."""
+    for variant in ("reuse", "own-piv"):
+        base2 = dict(base, family="tamper-response", response=variant)
+        try:
+            outer, _ = sv.protect(Message(code=codes.CONTENT, payload=b"resp-" + variant.encode()), request_id=rid_sv)
+            w, data = wire(outer)
+            inner, _ = cl.unprotect(w, rid_cl)
+        except Exception as e:
+            res.violate(Violation("roundtrip-raises", "protect/unprotect of a response succeed", core.exc_desc(e), core.site_of(e), base2,
+                                  key="resp-base:" + type(e).__name__))
+            return
+        orig = original_fields(inner)
+        t = rc.decode(data, check_formats=False)
+        optv = rc.opt(t[4], 9)
+        payload = t[5]
+
+        def att(newdata, case, kind, strict=False):
+            res.evaluations += 1
+            try:
+                msg = Message.decode(newdata)
+            except Exception:
+                return
+            try:
+                got, _ = cl.unprotect(msg, rid_cl)
+            except (o.ProtectionInvalid, o.NotAProtectedMessage):
+                res.signatures.add(("tamper-resp", kind, "rejected"))
+                return
+            except Exception as e:
+                res.violate(Violation("tamper-raises-other", "a protection error", core.exc_desc(e), core.site_of(e), case,
+                                      key="resp:%s@%s" % (type(e).__name__, core.site_of(e))))
+                return
+            if strict or original_fields(got) != orig:
+                res.violate(Violation("tampered-message-accepted", "protection error", {"got": core.jsonable(original_fields(got))},
+                                      "oscore.py:unprotect", case, key="accepted:resp-" + kind))
+            else:
+                res.signatures.add(("tamper-resp", kind, "equivalent"))
+        for i in range(len(payload)):
+            for b in (range(8) if (full or i in (0, len(payload) - 1)) else (0,)):
+                p2 = bytearray(payload)
+                p2[i] ^= 1 << b
+                att(mutated(data, new_payload=bytes(p2)), dict(base2, flip=["payload", i, b]), "ct-flip")
+        for i in range(len(optv)):
+            for b in range(8):
+                o2 = bytearray(optv)
+                o2[i] ^= 1 << b
+                att(mutated(data, new_option=bytes(o2)), dict(base2, flip=["option", i, b]), "opt-flip")
+        own = {}
+        if optv:
+            n = optv[0] & 7
+            if n:
+                own[o.COSE_PIV] = optv[1:1 + n]
+
+        def opt_with(**extra):
+            unprot = dict(own)
+            for k, v in extra.items():
+                unprot[{"kid": o.COSE_KID, "kctx": o.COSE_KID_CONTEXT, "piv": o.COSE_PIV}[k]] = v
+            return o.CanProtect._compress({}, unprot, b"")[0]
+        my_ctx = cl.id_context
+        edits = [("kctx-other", opt_with(kctx=b"other"), True), ("kctx-other+kid", opt_with(kctx=b"other", kid=cl.recipient_id), True),
+                 ("kid-other", opt_with(kid=b"\xee" + cl.recipient_id[1:]), True),
+                 ("kctx-empty", opt_with(kctx=b""), my_ctx not in (None, b"") or my_ctx is None)]
+        if o.COSE_PIV in own:
+            pv = int.from_bytes(own[o.COSE_PIV], "big")
+            edits.append(("piv+1", opt_with(piv=(pv + 1).to_bytes(5, "big").lstrip(b"\0") or b"\0"), True))
+            edits.append(("piv-dropped", o.CanProtect._compress({}, {}, b"")[0], True))
+        else:
+            edits.append(("piv-added", opt_with(piv=b"\x07"), True))
+        for name, ov, strict in edits:
+            if ov == optv:
+                continue
+            att(mutated(data, new_option=ov), dict(base2, edit=name), "edit-" + name, strict=strict)
 
 
 SSNS = [0, 1, 255, 256, 65535, 65536, 2 ** 24, 2 ** 32, 2 ** 40 - 2]
